@@ -692,6 +692,19 @@ def _sub_seg(I, s, a, b):
 
 def index_value(I, base, idx):
     ctx = I.ctx
+    if isinstance(base, (tuple, list, str, range)) and isinstance(idx, SBV):
+        # table lookup by a bit-vector index: if-then-else over the (constant, non-negative) entries
+        n = len(base)
+        if not all(isinstance(x, int) and not isinstance(x, bool) and x >= 0 for x in base):
+            raise Unsupported("bit-vector index into a non-constant table")
+        if n < 2 ** idx.w:
+            I.safety("index", wrap_bool(z3.ULT(idx.t, z3.BitVecVal(n, idx.w + 1)) if False else z3.ULT(z3.ZeroExt(1, idx.t), z3.BitVecVal(n, idx.w + 1))), IndexError)
+        w = max(max(x.bit_length() for x in base), 1)
+        r = z3.BitVecVal(base[-1] if n else 0, w)
+        for k in reversed(range(min(n, 2 ** idx.w) - 1)):
+            r = z3.If(idx.t == z3.BitVecVal(k, idx.w), z3.BitVecVal(base[k], w), r)
+        from .ops import sbv_norm
+        return sbv_norm(r, w)
     if isinstance(base, (tuple, list, str, range)):
         if isinstance(idx, (SBool,)):
             if len(base) < 2:
